@@ -16,4 +16,10 @@ const char *tls_handshake_type_name(int type)
 ASSIGNS()
 ENSURES((RET != NULL) == ((type >= 0 && type <= 6) || type == 8 || (type >= 11 && type <= 16) || (type >= 20 && type <= 26) || type == 254))
 ;
+/* src/tls_trace.c table lookup: assumed pure (a switch over literals; its result only selects accept / refuse) */
+const char *tls_cert_type_name(int type)
+REQUIRES(1)
+ASSIGNS()
+ENSURES(1)
+;
 #endif
